@@ -181,6 +181,19 @@ CHECKS = {
         note="Bound: depth 3 on 2 base models (quick), 4 on 3 (thorough); 48 failing models x 4 configurations. Failing "
              "models are judged only when the solver itself reports unbounded/infeasible. MOSEK path = stand-in.",
     ),
+    "C17": dict(
+        category="model_checking",
+        technique="every class x declaration pattern x naming x step count of the grammar solved (twice: a sample is added between "
+                  "the solves); tables of dual values compared cell by cell with the documented condition of the pair of "
+                  "samples (by identity) and with the multiplier of the constraint at that cell",
+        text="For every leaf function of every enumerated model, get_class_constraints_duals() must return one table per "
+             "condition with one row / column per recorded sample and the sample labels; cell (i,j) must be the multiplier of "
+             "the constraint whose functional is the documented condition instantiated on (row sample i, column sample j) - "
+             "0 where none exists; every class constraint sits in exactly one cell and is named "
+             "IC_<function>_<condition>(<row label>, <column label>); all of it again after one more sample and a second solve.",
+        note="Bounded by the grammar (24 classes, <= 2 steps, 3 patterns, named / unnamed, duplicate labels, composite partner, "
+             "second function). Reference conditions: mc/catalog/conditions.py.",
+    ),
 }
 
 _PENDING = "check not built yet in this session (planned, see DESIGN.md section 4); not claimed until it has run clean and caught a mutant"
